@@ -113,7 +113,7 @@ class C05(Sim):
             "interleaving hash); non-trivial = at least one accepted write and one container growth with an attribute alive")
     FAULT_KINDS = ["reject"]
     PROBES = ["index==size", "mutate_default", "extend_by_container", "rejected_write", "read_default", "grow_with_dense",
-              "attr_clear", "container_clear", "widening_write", "vector_attr", "custom_default", "corner_container", "copy_entry", "big_int", "first_use_is_mutation", "extend_empty_by_container"]
+              "attr_clear", "container_clear", "widening_write", "vector_attr", "custom_default", "corner_container", "copy_entry", "big_int", "first_use_is_mutation", "extend_empty_by_container", "attribute_created_again", "clear_after_inplace_change"]
     QUICK_RUNS = 8000
     THOROUGH_RUNS = 1500000
     BLOCK = 100
@@ -271,7 +271,7 @@ class C05(Sim):
                 return {"c": c, "op": "iupd", "k": k, "name": name, "i": i, "inc": inc}
             if op == "mutread" and a.arity > 1 and a.t in ("int", "float", "complex", "bool"):
                 return {"c": c, "op": "mutread", "k": k, "name": name, "i": i, "twin": r.choice(["s", "d"]),
-                        "how": r.choice(["iadd", "setitem"]), "resync": self._gen_value(r, a.t, a.arity)}
+                        "how": r.choice(["iadd", "setitem"]), "resync": self._gen_value(r, a.t, a.arity), "then": r.choice(["resync", "resync", "clear"])}
             return {"c": c, "op": "set", "k": k, "name": name, "i": i, "val": self._gen_value(r, a.t, a.arity)}
         if c == "reader":
             op = r.wchoice(["get", "asarray", "has", "len", "scan"], [6, 3, 1, 1, 2])
@@ -344,8 +344,18 @@ class C05(Sim):
         if r.chance(0.35):
             v = self._gen_scalar(r, t)
             default = {"t": t, "w": "py", "v": enc_scalar(t, v)}
+        k_ = r.below(len(self.refs))
+        if self.refs[k_].attrs and r.chance(0.15):
+            # the same NAME is created again on that container (the container replaces the attribute), same type and arity, another default:
+            # the new attribute starts empty, with the new default
+            nm = r.choice(sorted(self.refs[k_].attrs))
+            old_ = self.refs[k_].attrs[nm]
+            t, arity = old_.t, old_.arity
+            v = self._gen_scalar(r, t)
+            default = None if (old_.default is not None and r.chance(0.5)) else {"t": t, "w": "py", "v": enc_scalar(t, v)}
+            return {"c": c, "op": "create", "k": k_, "name": nm, "t": t, "arity": arity, "default": default, "again": True}
         self.nname += 1
-        return {"c": c, "op": "create", "k": r.below(len(self.refs)), "name": "a%d" % self.nname, "t": t, "arity": arity, "default": default}
+        return {"c": c, "op": "create", "k": k_, "name": "a%d" % self.nname, "t": t, "arity": arity, "default": default}
 
     # ------------------------------------------------------------------ replay guards
     def applicable(self, ev):
@@ -353,6 +363,9 @@ class C05(Sim):
         k = ev.get("k")
         if k is not None and k >= len(self.refs):
             return False
+        if op == "create" and ev.get("again"):
+            a0 = self.refs[k].attrs.get(ev["name"])
+            return a0 is not None and a0.t == ev["t"] and a0.arity == ev["arity"]
         if op in ("create", "create_bad"):
             return ev["name"] not in self.refs[k].attrs
         if "name" in ev and op not in ("has", "getattr_missing"):
@@ -436,6 +449,8 @@ class C05(Sim):
             for o, w in zip(outs, ("sparse", "dense")):
                 if not o.ok:
                     self.exc_violation("create", op, o, "%s/%s/%d/%s" % (w, t, arity, "custom" if dflt is not None else "implicit"))
+            if ev["name"] in ref.attrs:
+                self.probes["attribute_created_again"] += 1
             ref.attrs[ev["name"]] = RefAttr(t, arity, None if dflt is None else model_value(ev["default"]))
             self.handles[(k, ev["name"])] = (outs[0].value, outs[1].value)
             self.attrkinds.add("%s/%d/%s" % (t, arity, "c" if dflt is not None else "i"))
@@ -575,6 +590,15 @@ class C05(Sim):
                     m = call(v.__setitem__, 0, one if a.t != "bool" else (not bool(v[0])))
                 # "Changing a value obtained by reading one entry never changes what any OTHER entry reads":
                 # entry i itself is allowed to change, so it is put back in lock-step by a fresh write first.
+            if ev.get("then") == "clear":
+                # ... or the attribute is cleared right after the in-place change (no assignment in between): everything reads the default again
+                self.probes["clear_after_inplace_change"] += 1
+                for o2, w in ((call(s.clear), "sparse"), (call(d.clear), "dense")):
+                    if not o2.ok:
+                        self.exc_violation("clear", op, o2, w)
+                a.data = {}
+                self._check_state(op + ":" + ev["twin"] + "/then-clear")
+                return "cleared"
             rs = ev["resync"]
             for o2, w in ((call(s.__setitem__, i, dec_value(rs)), "sparse"), (call(d.__setitem__, i, dec_value(rs)), "dense")):
                 if not o2.ok:
